@@ -955,10 +955,15 @@ pub fn scenarios(prop: &str, tier: Tier) -> Vec<(EvSc, Vec<Bounds>)> {
 				Tier::Quick => (3, 1),
 				Tier::Thorough => (4, 2),
 			};
-			for s in upto(&ALL_EV, len) {
+			let core5 = [Ev::NPass, Ev::NRej, Ev::NErr, Ev::URej, Ev::NEmpty];
+			let mut scripts = upto(&ALL_EV, len.min(3));
+			if len >= 4 {
+				// the longest scripts of the thorough tier: five event classes, two configurations
+				scripts.extend(seqs(&core5, 4));
+			}
+			for s in scripts {
 				let l = s.len();
 				let passes = if l == len { ladder(k.saturating_sub(1)) } else { ladder(k) };
-				// the longest scripts of the thorough tier: two configurations only
 				let long = l >= 4;
 				for thr in [0u64, 2] {
 					if long && thr == 0 {
